@@ -133,7 +133,7 @@ pub fn gen_scenario(r: &mut Rng, seed: u64) -> Scenario {
     }
     let failpoints = if r.chance(1, 2) { Some(r.next()) } else { None };
     let desc = json!({"seed": seed, "piece_length": torrent.piece_len, "pieces": n, "failpoints": failpoints.is_some(), "peers": pdesc});
-    Scenario { cfg: SimCfg { torrent, peers, tracker: vec![], failpoints, max_virtual_ms: 60_000, stop_on_extract: true, linger_ms: 3_000, disk_on: disk_on_ownership, seed, driver: None }, desc }
+    Scenario { cfg: SimCfg { torrent, peers, tracker: vec![], failpoints, max_virtual_ms: 60_000, stop_on_extract: true, linger_ms: 3_000, disk_on: disk_on_ownership, seed, tracker_fn: None, driver: None }, desc }
 }
 
 pub fn trace_around(o: &Outcome, at_seq: u64) -> Vec<String> {
@@ -299,7 +299,7 @@ pub fn gen_scenario_c11(r: &mut Rng, seed: u64) -> Scenario {
     let failpoints = if r.chance(1, 2) { Some(r.next()) } else { None };
     let desc = json!({"seed": seed, "piece_length": torrent.piece_len, "pieces": n, "failpoints": failpoints.is_some(), "peers": pdesc});
     // run for a fixed virtual time after which everything is quiescent
-    Scenario { cfg: SimCfg { torrent, peers, tracker: vec![], failpoints, max_virtual_ms: 110_000, stop_on_extract: true, linger_ms: 25_000, disk_on: disk_on_ownership, seed, driver: None }, desc }
+    Scenario { cfg: SimCfg { torrent, peers, tracker: vec![], failpoints, max_virtual_ms: 110_000, stop_on_extract: true, linger_ms: 25_000, disk_on: disk_on_ownership, seed, tracker_fn: None, driver: None }, desc }
 }
 
 pub fn run_c11(ctx: &Ctx) -> Report {
